@@ -189,7 +189,7 @@ def run(prop, tier, seed, replay=None):
     n = len(CATALOGUE)
     c.rule = ('histories = all sequences of up to 3 calls over a catalogue of %d (document, options) pairs (TLC, exhaustive: %d histories), each '
               'replayed in one fresh interpreter and compared call by call with the call made alone; plus sequences of up to 3 HTTP requests over '
-              '%d request kinds against one --as-server process vs a fresh server (thorough: one call more); non-trivial = distinct history of length >= 2' % (n, n + n * n + n ** 3, len(REQS)))
+              '%d request kinds against one --as-server process vs a fresh server (thorough: plus 60 000 histories of 4 calls); non-trivial = distinct history of length >= 2' % (n, n + n * n + n ** 3, len(REQS)))
     if replay:
         cs = json.load(open(replay))['case']
         hs = [cs['hist']]
@@ -198,6 +198,11 @@ def run(prop, tier, seed, replay=None):
         cfg = tlc.cfg_text(constants={'NCalls': n, 'MaxHist': 3 if q else 4, 'Coupled': False}, invariants=['Independence', 'Dump'])
         r = c.tlc('History.tla: all histories over %d calls, length <= %d' % (n, 3 if q else 4), 'History', cfg)
         hs = [b['hist'] for b in r.json('@@')]
+        if not q:
+            # all histories of up to 3 calls, a sample of those with 4
+            long = [h for h in hs if len(h) > 3]
+            c.rng.shuffle(long)
+            hs = [h for h in hs if len(h) <= 3] + long[:60000]
         kind = 'call'
     solos = dict(c.drive(list(range(1, n + 1)), solo_call, chunksize=1))
     solotab = {str(k): v for k, v in solos.items()}
